@@ -658,7 +658,7 @@ Proof.
   - simpl in *. destruct H as [H _]. exact H.
   - change (addr_cat k s b ps 0) in H. apply cat_len_ge in H. simpl. lia.
   - change (addr_sw k s b es) in H. apply addr_sw_iff in H as [e [He [Hk _]]]. simpl in *.
-    rewrite forallb_forall in W. specialize (W e He). apply andb_true_iff in W as [_ W]. apply Nat.eqb_eq in W. lia.
+    rewrite forallb_forall in W. specialize (W e He). apply andb_true_iff in W as [_ W]. apply Nat.leb_le in W. lia.
 Qed.
 
 Definition emit_cat (start len : nat) := fix go (ps : list tgt) (part_stop : nat) : list arec :=
@@ -759,12 +759,14 @@ Proof.
     change (exists k, start <= k < start + len /\ addr (TSwitch w es) k s b)
       with (exists k, start <= k < start + len /\ addr_sw k s b es).
     rewrite Forall_forall in IH. split.
-    + intros [e [He Hc]]. specialize (W e He). apply andb_true_iff in W as [W1 W2]. apply Nat.eqb_eq in W2.
-      rewrite Nat.min_l in Hc by lia. apply (IH e He W1) in Hc; [|lia]. destruct Hc as [k [Hk Ha]].
-      exists k. split; [assumption|]. apply addr_sw_iff. exists e. repeat split; try assumption. lia.
+    + intros [e [He Hc]]. specialize (W e He). apply andb_true_iff in W as [W1 W2]. apply Nat.leb_le in W2.
+      destruct (tlen e <=? start) eqn:E; [now apply covered_nil in Hc|]. apply Nat.leb_gt in E.
+      apply (IH e He W1) in Hc; [|lia]. destruct Hc as [k [Hk Ha]].
+      exists k. split; [lia|]. apply addr_sw_iff. exists e. repeat split; try assumption. lia.
     + intros [k [Hk Ha]]. apply addr_sw_iff in Ha as [e [He [Hke Ha]]]. exists e. split; [assumption|].
-      specialize (W e He). apply andb_true_iff in W as [W1 W2]. apply Nat.eqb_eq in W2.
-      rewrite Nat.min_l by lia. apply (IH e He W1); [lia|]. eauto.
+      specialize (W e He). apply andb_true_iff in W as [W1 W2]. apply Nat.leb_le in W2.
+      destruct (tlen e <=? start) eqn:E; [apply Nat.leb_le in E; lia|]. apply Nat.leb_gt in E.
+      apply (IH e He W1); [lia|]. exists k. split; [lia|assumption].
 Qed.
 
 (* the bits a whole assignment `t.eq(...)` contributes to drivers are exactly the bits it may drive *)
@@ -776,63 +778,58 @@ Proof.
 Qed.
 
 
-(* ---------- the same for arrays whose elements have different widths (whole assignments) ---------- *)
-Lemma emit_cat_full : forall ps L off s b,
-  Forall (fun p => forall s b, covered (emit_assign p 0 (tlen p)) s b <-> may_drive p s b) ps ->
-  off + fold_right (fun p acc => tlen p + acc) 0 ps <= L ->
-  (covered (emit_cat 0 L ps off) s b <-> exists k, addr_cat k s b ps off).
+(* ---------- wf_tgt_top (kept for the statements of Props) is wf_tgt ---------- *)
+Lemma wf_top_wf : forall t, wf_tgt_top t = true -> wf_tgt t = true.
 Proof.
-  induction ps as [|p ps IH]; intros L off s b HF HL; cbn [emit_cat addr_cat].
-  - split; [intro H; now apply covered_nil in H|intros [k []]].
-  - inversion HF as [|? ? Hp Hr]; subst. cbn [fold_right] in HL.
-    specialize (IH L (off + tlen p) s b Hr ltac:(lia)).
-    destruct (off + tlen p <=? 0) eqn:E1.
-    { apply Nat.leb_le in E1. rewrite IH. split; intros [k H]; exists k; [now right|].
-      destruct H as [[H1 [H2 _]]|H]; [lia|assumption]. }
-    apply Nat.leb_gt in E1.
-    destruct (0 + L <=? off) eqn:E2.
-    { apply Nat.leb_le in E2. rewrite IH. split; intros [k H]; exists k; [now right|].
-      destruct H as [[H1 [H2 _]]|H]; [lia|assumption]. }
-    apply Nat.leb_gt in E2.
-    replace (if 0 <? off then 0 else 0 - off) with 0 by (destruct (0 <? off); lia).
-    replace ((if off + tlen p <=? 0 + L then off + tlen p - 0 else L) - (if 0 <? off then off - 0 else 0))
-      with (tlen p).
-    2:{ destruct (off + tlen p <=? 0 + L) eqn:E3; [|apply Nat.leb_gt in E3; lia].
-        destruct (0 <? off) eqn:E4; [lia|apply Nat.ltb_ge in E4; lia]. }
-    rewrite covered_app, IH, (Hp s b). unfold may_drive. split.
-    + intros [[k [Hk Ha]]|[k H]].
-      * exists (k + off). left. replace (k + off - off) with k by lia. repeat split; try lia. assumption.
-      * exists k. now right.
-    + intros [k [[H1 [H2 Ha]]|H]].
-      * left. exists (k - off). split; [lia|assumption].
-      * right. eauto.
+  induction t as [s' w|a IH|a lo hi IH|a offw w st IH|ps IH|w es IH] using tgt_ind'; intro W; simpl in *; auto.
+  - rewrite forallb_forall in *. rewrite Forall_forall in IH. intros p Hp. apply IH; [assumption|now apply W].
+  - rewrite forallb_forall in *. rewrite Forall_forall in IH. intros e He. specialize (W e He).
+    apply andb_true_iff in W as [W1 W2]. apply andb_true_iff. split; [now apply IH|assumption].
 Qed.
 
 Theorem emit_assign_spec_top : forall t, wf_tgt_top t = true -> forall s b,
   (covered (emit_assign t 0 (tlen t)) s b <-> may_drive t s b).
+Proof. intros t W s b. apply emit_assign_may_drive. now apply wf_top_wf. Qed.
+
+(* every record emit_assign makes names a signal of the target with its width, and lies inside it *)
+Lemma emit_assign_bounds : forall t, wf_tgt t = true -> forall start len r,
+  start + len <= tlen t -> In r (emit_assign t start len) ->
+  In (a_sig r, a_w r) (tgt_sigs t) /\ a_start r + a_len r <= a_w r.
 Proof.
-  induction t as [s' w|a IH|a lo hi IH|a offw w st IH|ps IH|w es IH] using tgt_ind'; intros W s b.
-  - apply emit_assign_may_drive. reflexivity.
-  - simpl in W. cbn [emit_assign tlen]. rewrite (IH W s b). unfold may_drive. simpl. tauto.
-  - apply emit_assign_may_drive. exact W.
-  - apply emit_assign_may_drive. exact W.
-  - simpl in W. rewrite forallb_forall in W.
-    change (emit_assign (TCat ps) 0 (tlen (TCat ps))) with (emit_cat 0 (tlen (TCat ps)) ps 0).
-    rewrite emit_cat_full.
-    + unfold may_drive. change (addr (TCat ps)) with (fun k s b => addr_cat k s b ps 0). split.
-      * intros [k H]. exists k. split; [|assumption]. apply cat_len_ge in H. simpl in *. lia.
-      * intros [k [_ H]]. eauto.
-    + rewrite Forall_forall in *. intros p Hp s0 b0. apply IH; [assumption|]. now apply W.
-    + simpl. lia.
-  - simpl in W. rewrite forallb_forall in W. rewrite Forall_forall in IH.
-    cbn [emit_assign tlen]. rewrite covered_flat_map. unfold may_drive at 1.
-    change (addr (TSwitch w es)) with (fun k s b => addr_sw k s b es). cbn [tlen]. split.
-    + intros [e [He Hc]]. specialize (W e He). apply andb_true_iff in W as [W1 W2]. apply Nat.leb_le in W2.
-      rewrite Nat.min_r in Hc by lia. apply (IH e He W1) in Hc. destruct Hc as [k [Hk Ha]].
-      exists k. split; [lia|]. apply addr_sw_iff. eauto.
-    + intros [k [Hk Ha]]. apply addr_sw_iff in Ha as [e [He [Hke Ha]]]. exists e. split; [assumption|].
-      specialize (W e He). apply andb_true_iff in W as [W1 W2]. apply Nat.leb_le in W2.
-      rewrite Nat.min_r by lia. apply (IH e He W1). exists k. auto.
+  induction t as [s' w|a IH|a lo hi IH|a offw w st IH|ps IH|w es IH] using tgt_ind'; intros W start len r Hlen Hr.
+  - simpl in *. destruct Hr as [<-|[]]. simpl. split; [now left|lia].
+  - simpl in *. now apply (IH W start len).
+  - simpl in W, Hlen. apply andb_true_iff in W as [W W3]. apply andb_true_iff in W as [W1 W2].
+    apply Nat.leb_le in W2, W3. simpl in Hr. simpl. apply (IH W1 (start + lo) len); [lia|assumption].
+  - cbn [wf_tgt] in W. simpl in Hlen. apply andb_true_iff in W as [W1 W2]. cbn [emit_assign] in Hr.
+    apply in_flat_map in Hr as [idx [_ Hr]]. destruct (tlen a <=? start + idx * st) eqn:E; [destruct Hr|].
+    apply Nat.leb_gt in E. simpl. eapply (IH W1); [|exact Hr].
+    destruct (tlen a <=? start + idx * st + len) eqn:E2; [apply Nat.leb_le in E2|apply Nat.leb_gt in E2]; lia.
+  - clear Hlen. simpl in W. rewrite forallb_forall in W.
+    change (emit_assign (TCat ps) start len) with (emit_cat start len ps 0) in Hr. cbn [tgt_sigs].
+    revert Hr. generalize 0 as off. induction ps as [|p ps IHps]; intros off Hr; cbn [emit_cat] in Hr; [destruct Hr|].
+    inversion IH as [|? ? IHp IHr]; subst.
+    assert (Wp : wf_tgt p = true) by (apply W; now left).
+    assert (Wr : forall x, In x ps -> wf_tgt x = true) by (intros; apply W; now right).
+    assert (Rest : In r (emit_cat start len ps (off + tlen p)) ->
+                   In (a_sig r, a_w r) (flat_map tgt_sigs (p :: ps)) /\ a_start r + a_len r <= a_w r).
+    { intro H. destruct (IHps IHr Wr _ H) as [A B]. split; [simpl; apply in_or_app; now right|assumption]. }
+    destruct (off + tlen p <=? start) eqn:E1; [now apply Rest|]. apply Nat.leb_gt in E1.
+    destruct (start + len <=? off) eqn:E2; [now apply Rest|]. apply Nat.leb_gt in E2.
+    apply in_app_or in Hr as [Hr|Hr]; [|now apply Rest].
+    set (pls := if start <? off then 0 else start - off) in Hr.
+    set (n := (if off + tlen p <=? start + len then off + tlen p - start else len)
+              - (if start <? off then off - start else 0)) in Hr.
+    assert (Hw : pls + n <= tlen p).
+    { unfold pls, n. destruct (start <? off) eqn:E3; [apply Nat.ltb_lt in E3|apply Nat.ltb_ge in E3];
+        (destruct (off + tlen p <=? start + len) eqn:E4; [apply Nat.leb_le in E4|apply Nat.leb_gt in E4]); lia. }
+    destruct (IHp Wp pls n r Hw Hr) as [A B].
+    split; [simpl; apply in_or_app; now left|assumption].
+  - cbn [emit_assign] in Hr. simpl in W. rewrite forallb_forall in W. rewrite Forall_forall in IH.
+    apply in_flat_map in Hr as [e [He Hr]]. specialize (W e He). apply andb_true_iff in W as [W1 W2].
+    destruct (tlen e <=? start) eqn:E; [destruct Hr|]. apply Nat.leb_gt in E.
+    destruct (IH e He W1 start (Nat.min len (tlen e - start)) r) as [A B]; [lia|exact Hr|].
+    split; [simpl; apply in_flat_map; eauto|assumption].
 Qed.
 
 (* ---------- the computable spec agrees with the declarative one ---------- *)
@@ -1551,3 +1548,868 @@ Proof.
   - destruct H as [P2 E2]. apply finish_safe; auto. split; assumption.
 Qed.
 End Safe.
+
+(* ================================================================================================ *)
+(* Part I — the whole-design driver check, for ALL designs                                          *)
+(* ================================================================================================ *)
+Definition cov (b : nat) (rs : list arec) : Prop := exists r, In r rs /\ covers b r = true.
+Definition mine (s w : nat) (rs : list arec) : list bit :=
+  map (fun b => (s, b)) (filter (fun b => existsb (covers b) rs) (seq 0 w)).
+Definition allbits (s w : nat) : list bit := map (fun b => (s, b)) (seq 0 w).
+
+Lemma mine_In s w rs x : In x (mine s w rs) <-> fst x = s /\ snd x < w /\ cov (snd x) rs.
+Proof.
+  unfold mine, cov. rewrite in_map_iff. split.
+  - intros [b [<- H]]. apply filter_In in H as [H1 H2]. apply in_seq in H1. apply existsb_exists in H2. simpl. split; [reflexivity|]. split; [lia|exact H2].
+  - intros [H1 [H2 H3]]. exists (snd x). split; [destruct x; simpl in *; congruence|].
+    apply filter_In. split; [apply in_seq; lia|now apply existsb_exists].
+Qed.
+Lemma allbits_In s w x : In x (allbits s w) <-> fst x = s /\ snd x < w.
+Proof.
+  unfold allbits. rewrite in_map_iff. split.
+  - intros [b [<- H]]. apply in_seq in H. simpl. lia.
+  - intros [H1 H2]. exists (snd x). split; [destruct x; simpl in *; congruence|apply in_seq; lia].
+Qed.
+Lemma NoDup_map_pair (s : nat) (l : list nat) : NoDup l -> NoDup (map (fun b : nat => (s, b)) l).
+Proof.
+  induction 1; simpl; constructor; auto. intro Hin. apply in_map_iff in Hin as [y [E Hy]]. inversion E; subst. contradiction.
+Qed.
+Lemma mine_NoDup s w rs : NoDup (mine s w rs).
+Proof. apply NoDup_map_pair. apply NoDup_filter. apply seq_NoDup. Qed.
+Lemma allbits_NoDup s w : NoDup (allbits s w).
+Proof. apply NoDup_map_pair. apply seq_NoDup. Qed.
+
+Lemma connect_ok_In bits conns c' : connect bits conns = inl c' -> forall x, In x c' <-> In x bits \/ In x conns.
+Proof.
+  intro H. apply connect_spec in H as [_ [_ ->]]. intro x. rewrite in_app_iff, <- in_rev. tauto.
+Qed.
+Lemma connect_ok_disj bits conns c' : connect bits conns = inl c' -> forall x, In x bits -> ~ In x conns.
+Proof. intro H. apply connect_spec in H as [_ [H _]]. exact H. Qed.
+
+(* ---- driven_bits ---- *)
+Lemma mark_bits_db s key : forall bits db db', mark_bits s key bits db = inl db' ->
+  forall b k, In (b, k) db' -> In (b, k) db \/ (k = key /\ In b bits).
+Proof.
+  induction bits as [|b0 r IH]; intros db db' H b k Hin; simpl in H; [inversion H; subst; auto|].
+  destruct (find (fun p => Nat.eqb (fst p) b0) db) as [[b' [om od]]|] eqn:F.
+  - destruct (negb (Nat.eqb od (snd key))); [discriminate|]. destruct (negb (Nat.eqb om (fst key))); [discriminate|].
+    destruct (IH _ _ H b k Hin) as [H1|[H1 H2]]; [now left|right; split; [assumption|now right]].
+  - destruct (IH _ _ H b k Hin) as [[H1|H1]|[H1 H2]].
+    + inversion H1; subst. right. split; [reflexivity|now left].
+    + now left.
+    + right. split; [assumption|now right].
+Qed.
+Lemma covers_seq b r : In b (seq (a_start r) (a_len r)) <-> covers b r = true.
+Proof.
+  unfold covers. rewrite in_seq, andb_true_iff, Nat.leb_le, Nat.ltb_lt. tauto.
+Qed.
+Lemma mark_assigns_db s key : forall rs db db', mark_assigns s key rs db = inl db' ->
+  forall b k, In (b, k) db' -> In (b, k) db \/ (k = key /\ cov b rs).
+Proof.
+  induction rs as [|r rs IH]; intros db db' H b k Hin; simpl in H; [inversion H; subst; auto|].
+  destruct (mark_bits s key (seq (a_start r) (a_len r)) db) as [db1|e] eqn:E; [|discriminate].
+  destruct (IH _ _ H b k Hin) as [H1|[H1 [r' [H2 H3]]]].
+  - destruct (mark_bits_db _ _ _ _ _ E b k H1) as [H4|[H4 H5]]; [now left|].
+    right. split; [assumption|]. exists r. split; [now left|now apply covers_seq].
+  - right. split; [assumption|]. exists r'. split; [now right|assumption].
+Qed.
+Lemma mark_assigns_err s key : forall rs db e, mark_assigns s key rs db = inr e ->
+  exists b k', cov b rs /\ In (b, k') db /\ k' <> key.
+Proof.
+  induction rs as [|r rs IH]; intros db e H; simpl in H; [discriminate|].
+  destruct (mark_bits s key (seq (a_start r) (a_len r)) db) as [db1|e1] eqn:E.
+  - destruct (IH _ _ H) as [b [k' [[r' [H1 H2]] [H3 H4]]]].
+    destruct (mark_bits_db _ _ _ _ _ E b k' H3) as [H5|[H5 _]]; [|contradiction].
+    exists b, k'. split; [exists r'; split; [now right|assumption]|auto].
+  - inversion H; subst. destruct (mark_bits_err _ _ _ _ _ E) as [b [k' [H1 [H2 [H3 _]]]]].
+    exists b, k'. split; [exists r; split; [now left|now apply covers_seq]|auto].
+Qed.
+
+(* ---- one signal ---- *)
+Section OneSignal.
+Variables s w : nat.
+
+(* success: conns only grows, by bits of s; every driver's bits got connected, and were free before *)
+Lemma esd_ok n : forall ds db conns conns', emit_sig_drivers s w n ds db conns = inl conns' ->
+  (forall x, In x conns -> In x conns') /\
+  (forall x, In x conns' -> In x conns \/ (fst x = s /\ snd x < w /\ ds <> [])) /\
+  (forall key rs, In (key, rs) ds -> forall x, In x (mine s w rs) -> In x conns' /\ ~ In x conns) /\
+  (forall k1 rs1 k2 rs2, In (k1, rs1) ds -> In (k2, rs2) ds -> k1 <> k2 ->
+     forall x, In x (mine s w rs1) -> ~ In x (mine s w rs2)).
+Proof.
+  induction ds as [|[key rs] rest IH]; intros db conns conns' H; simpl in H.
+  - inversion H; subst. split; [auto|]. split; [auto|]. split; intros; contradiction.
+  - set (guard := Nat.eqb n 1 && forallb (fun b => negb (bmem (s, b) conns)) (seq 0 w)) in H.
+    assert (Step : exists bits db1 conns1, connect bits conns = inl conns1 /\
+                   emit_sig_drivers s w n rest db1 conns1 = inl conns' /\
+                   (forall x, In x bits -> fst x = s /\ snd x < w) /\
+                   (forall x, In x (mine s w rs) -> In x bits)).
+    { destruct guard eqn:G.
+      - fold (allbits s w) in H. destruct (connect (allbits s w) conns) as [c1|e] eqn:E; [|discriminate].
+        exists (allbits s w), db, c1. split; [exact E|]. split; [exact H|]. split; [intros x Hx; now apply allbits_In|].
+        intros x Hx. apply mine_In in Hx. apply allbits_In. tauto.
+      - destruct (mark_assigns s key rs db) as [db1|e] eqn:M; [|discriminate].
+        fold (mine s w rs) in H. destruct (connect (mine s w rs) conns) as [c1|e] eqn:E; [|discriminate].
+        exists (mine s w rs), db1, c1. split; [exact E|]. split; [exact H|]. split; [intros x Hx; apply mine_In in Hx; tauto|auto]. }
+    destruct Step as (bits & db1 & conns1 & E1 & E2 & Hb & Hm).
+    destruct (IH _ _ _ E2) as (I1 & I2 & I3 & I4).
+    pose proof (connect_ok_In _ _ _ E1) as C1. pose proof (connect_ok_disj _ _ _ E1) as C2.
+    split; [|split; [|split]].
+    + intros x Hx. apply I1, C1. now right.
+    + intros x Hx. apply I2 in Hx as [Hx|[H1 [H2 _]]]; [|right; repeat split; auto; discriminate].
+      apply C1 in Hx as [Hx|Hx]; [right|now left]. destruct (Hb x Hx). repeat split; auto; discriminate.
+    + intros k r0 [E|Hin] x Hx.
+      * inversion E; subst. split; [apply I1, C1; left; now apply Hm|apply C2; now apply Hm].
+      * destruct (I3 k r0 Hin x Hx) as [A B]. split; [assumption|]. intro Hc. apply B, C1. now right.
+    + intros k1 rs1 k2 rs2 [E1'|H1] [E2'|H2] Hne x Hx1 Hx2.
+      * congruence.
+      * inversion E1'; subst. destruct (I3 k2 rs2 H2 x Hx2) as [_ B]. apply B, C1. left. now apply Hm.
+      * inversion E2'; subst. destruct (I3 k1 rs1 H1 x Hx1) as [_ B]. apply B, C1. left. now apply Hm.
+      * exact (I4 k1 rs1 k2 rs2 H1 H2 Hne x Hx1 Hx2).
+Qed.
+
+(* failure: a bit of s claimed twice *)
+Lemma esd_sound base n : forall ds prev db conns e,
+  (forall b k, In (b, k) db -> exists rs, In (k, rs) prev /\ cov b rs) ->
+  (forall b, In (s, b) conns -> In (s, b) base \/ exists k rs, In (k, rs) prev /\ cov b rs) ->
+  NoDup (map fst (prev ++ ds)) ->
+  (forall k rs r, In (k, rs) ds -> In r rs -> a_start r + a_len r <= w) ->
+  n = length (prev ++ ds) ->
+  emit_sig_drivers s w n ds db conns = inr e ->
+  exists b, b < w /\
+    ((exists k1 rs1 k2 rs2, k1 <> k2 /\ In (k1, rs1) (prev ++ ds) /\ In (k2, rs2) (prev ++ ds) /\ cov b rs1 /\ cov b rs2)
+     \/ (exists k rs, In (k, rs) (prev ++ ds) /\ cov b rs /\ In (s, b) base)).
+Proof.
+  induction ds as [|[key rs] rest IH]; intros prev db conns e Hdb Hconns ND Hbound Hn H; simpl in H; [discriminate|].
+  assert (Hcovw : forall b, cov b rs -> b < w).
+  { intros b [r [Hr Hc]]. specialize (Hbound key rs r (or_introl eq_refl) Hr). unfold covers in Hc.
+    apply andb_true_iff in Hc as [_ Hc]. apply Nat.ltb_lt in Hc. lia. }
+  assert (Hkey : forall k rs0, In (k, rs0) prev -> k <> key).
+  { intros k rs0 Hin E. subst k. rewrite map_app in ND. apply NoDup_remove_2 in ND.
+    apply ND. apply in_or_app. left. apply in_map_iff. exists (key, rs0). auto. }
+  destruct (Nat.eqb n 1 && forallb (fun b => negb (bmem (s, b) conns)) (seq 0 w)) eqn:G.
+  - (* shortcut: sole driver, nothing after it, and the connect cannot fail *)
+    apply andb_true_iff in G as [G1 G2]. apply Nat.eqb_eq in G1. rewrite G1 in Hn. rewrite app_length in Hn. simpl in Hn.
+    assert (rest = []) as -> by (destruct rest; [reflexivity|simpl in Hn; lia]).
+    fold (allbits s w) in H. destruct (connect (allbits s w) conns) as [c1|e1] eqn:E; [simpl in H; discriminate|].
+    exfalso. apply connect_err in E as [s' [b [_ [Hin [Hc|Hd]]]]].
+    + apply allbits_In in Hin as [Hs Hb]. simpl in *. subst s'. rewrite forallb_forall in G2.
+      specialize (G2 b ltac:(apply in_seq; lia)). apply negb_true_iff in G2.
+      assert (bmem (s, b) conns = true) by now apply bmem_In. congruence.
+    + apply Hd, allbits_NoDup.
+  - destruct (mark_assigns s key rs db) as [db1|e1] eqn:M.
+    + fold (mine s w rs) in H. destruct (connect (mine s w rs) conns) as [c1|e2] eqn:E.
+      * (* go on with this driver among the previous ones *)
+        destruct (IH (prev ++ [(key, rs)]) db1 c1 e) as [b [Hb Hw]]; auto.
+        -- intros b k Hin. destruct (mark_assigns_db _ _ _ _ _ M b k Hin) as [H1|[-> H1]].
+           ++ destruct (Hdb b k H1) as [rs0 [A B]]. exists rs0. split; [apply in_or_app; now left|assumption].
+           ++ exists rs. split; [apply in_or_app; right; now left|assumption].
+        -- intros b Hin. apply (connect_ok_In _ _ _ E) in Hin as [Hin|Hin].
+           ++ apply mine_In in Hin as [_ [_ Hc]]. right. exists key, rs. split; [apply in_or_app; right; now left|assumption].
+           ++ destruct (Hconns b Hin) as [H1|[k [rs0 [A B]]]]; [now left|right]. exists k, rs0. split; [apply in_or_app; now left|assumption].
+        -- now rewrite <- app_assoc.
+        -- intros k rs0 r H1 H2. eapply Hbound; [right; exact H1|exact H2].
+        -- now rewrite <- app_assoc.
+        -- exists b. split; [assumption|]. rewrite <- app_assoc in Hw. exact Hw.
+      * (* connect(): a bit of this driver is already connected *)
+        apply connect_err in E as [s' [b [_ [Hin [Hc|Hd]]]]]; [|exfalso; apply Hd, mine_NoDup].
+        apply mine_In in Hin as [Hs [Hb Hcv]]. simpl in *. subst s'. exists b. split; [assumption|].
+        destruct (Hconns b Hc) as [H1|[k [rs0 [A B]]]].
+        -- right. exists key, rs. split; [apply in_or_app; right; now left|auto].
+        -- left. exists k, rs0, key, rs. repeat split; auto; [eapply Hkey; eassumption|apply in_or_app; now left|apply in_or_app; right; now left].
+    + (* driven_bits: domain / module clash *)
+      destruct (mark_assigns_err _ _ _ _ _ M) as [b [k' [Hcv [Hin Hne]]]].
+      destruct (Hdb b k' Hin) as [rs0 [A B]]. exists b. split; [now apply Hcovw|]. left.
+      exists k', rs0, key, rs. repeat split; auto; [apply in_or_app; now left|apply in_or_app; right; now left].
+Qed.
+End OneSignal.
+
+(* ---- all signals ---- *)
+Definition esig (e : sigdrv) : nat := fst (fst e).
+Definition tab_ok (tab : list sigdrv) : Prop :=
+  NoDup (map esig tab) /\
+  forall s w ds, In ((s, w), ds) tab ->
+    NoDup (map fst ds) /\ (forall k rs r, In (k, rs) ds -> In r rs -> a_start r + a_len r <= w).
+
+Lemma tab_same_entry tab s w1 ds1 w2 ds2 : NoDup (map esig tab) ->
+  In ((s, w1), ds1) tab -> In ((s, w2), ds2) tab -> w1 = w2 /\ ds1 = ds2.
+Proof.
+  induction tab as [|e tab IH]; intros N H1 H2; [destruct H1|]. simpl in N. inversion N as [|? ? Hn N']; subst.
+  destruct H1 as [->|H1], H2 as [E2|H2].
+  - inversion E2; auto.
+  - exfalso. apply Hn. apply in_map_iff. exists ((s, w2), ds2). auto.
+  - subst e. exfalso. apply Hn. apply in_map_iff. exists ((s, w1), ds1). auto.
+  - now apply IH.
+Qed.
+
+Lemma ed_ok : forall tab conns conns', NoDup (map esig tab) -> emit_drivers tab conns = inl conns' ->
+  (forall x, In x conns -> In x conns') /\
+  (forall x, In x conns' -> In x conns \/ exists w ds, In ((fst x, w), ds) tab /\ snd x < w /\ ds <> []) /\
+  (forall s w ds key rs, In ((s, w), ds) tab -> In (key, rs) ds ->
+     forall x, In x (mine s w rs) -> In x conns' /\ ~ In x conns) /\
+  (forall s w ds k1 rs1 k2 rs2, In ((s, w), ds) tab -> In (k1, rs1) ds -> In (k2, rs2) ds -> k1 <> k2 ->
+     forall x, In x (mine s w rs1) -> ~ In x (mine s w rs2)).
+Proof.
+  induction tab as [|[[s w] ds] tab IH]; intros conns conns' N H; simpl in H.
+  - inversion H; subst. split; [auto|]. split; [auto|]. split; intros; contradiction.
+  - simpl in N. inversion N as [|? ? Hn N']; subst.
+    destruct (emit_sig_drivers s w (length ds) ds [] conns) as [c1|e] eqn:E; [|discriminate].
+    destruct (esd_ok s w _ _ _ _ _ E) as (A1 & A2 & A3 & A4). destruct (IH _ _ N' H) as (B1 & B2 & B3 & B4).
+    split; [|split; [|split]].
+    + auto.
+    + intros x Hx. apply B2 in Hx as [Hx|[w0 [ds0 [H1 H2]]]].
+      * apply A2 in Hx as [Hx|[H1 [H2 H3]]]; [now left|right]. exists w, ds. destruct x; simpl in *; subst. auto.
+      * right. exists w0, ds0. split; [now right|assumption].
+    + intros s0 w0 ds0 key rs [E0|Hin] Hk x Hx.
+      * inversion E0; subst. destruct (A3 key rs Hk x Hx). auto.
+      * destruct (B3 s0 w0 ds0 key rs Hin Hk x Hx) as [H1 H2]. split; [assumption|]. intro Hc. apply H2. auto.
+    + intros s0 w0 ds0 k1 rs1 k2 rs2 [E0|Hin] H1 H2 Hk.
+      * inversion E0; subst. exact (A4 k1 rs1 k2 rs2 H1 H2 Hk).
+      * exact (B4 s0 w0 ds0 k1 rs1 k2 rs2 Hin H1 H2 Hk).
+Qed.
+
+Lemma ed_sound : forall tab conns e, tab_ok tab -> emit_drivers tab conns = inr e ->
+  exists s w ds b, In ((s, w), ds) tab /\ b < w /\
+    ((exists k1 rs1 k2 rs2, k1 <> k2 /\ In (k1, rs1) ds /\ In (k2, rs2) ds /\ cov b rs1 /\ cov b rs2)
+     \/ (exists k rs, In (k, rs) ds /\ cov b rs /\ In (s, b) conns)).
+Proof.
+  induction tab as [|[[s w] ds] tab IH]; intros conns e [N T] H; simpl in H; [discriminate|].
+  simpl in N. inversion N as [|? ? Hn N']; subst.
+  destruct (emit_sig_drivers s w (length ds) ds [] conns) as [c1|e1] eqn:E.
+  - destruct (IH c1 e) as (s' & w' & ds' & b & Hin & Hb & Hw); [split; [assumption|intros s0 w0 ds0 Hi; apply (T s0 w0 ds0); now right]|assumption|].
+    exists s', w', ds', b. split; [now right|]. split; [assumption|].
+    destruct Hw as [Hw|[k [rs [H1 [H2 H3]]]]]; [now left|right]. exists k, rs. repeat split; auto.
+    destruct (esd_ok s w _ _ _ _ _ E) as (_ & A2 & _). apply A2 in H3 as [H3|[H3 _]]; [assumption|].
+    simpl in H3. subst s'. exfalso. apply Hn. apply in_map_iff. exists ((s, w'), ds'). auto.
+  - destruct (T s w ds (or_introl eq_refl)) as [Nk Hbd].
+    destruct (esd_sound s w conns (length ds) ds [] [] conns e1
+                (fun b k (F : In (b, k) []) => match F with end)
+                (fun b Hin => or_introl Hin) Nk
+                (fun k rs r H1 H2 => Hbd k rs r H1 H2) eq_refl E) as (b & Hb & Hw).
+    exists s, w, ds, b. split; [now left|]. split; [assumption|]. exact Hw.
+Qed.
+
+(* ---- ports ---- *)
+Definition psig (p : nat * nat * pdir) : nat := fst (fst p).
+Lemma etp_ok : forall P conns conns', emit_top_ports P conns = inl conns' ->
+  (forall x, In x conns -> In x conns') /\
+  (forall s w, In (s, w, PIn) P -> forall b, b < w -> ~ In (s, b) conns).
+Proof.
+  induction P as [|[[s w] dir] P IH]; intros conns conns' H; simpl in H.
+  - inversion H; subst. split; [auto|intros ? ? []].
+  - set (isin := match dir with PIn => true | POut => false
+                 | PNone => negb (existsb (fun x => bmem x conns) (map (fun b => (s, b)) (seq 0 w))) end) in H.
+    destruct isin eqn:I.
+    + fold (allbits s w) in H. destruct (connect (allbits s w) conns) as [c1|e] eqn:E; [|discriminate].
+      destruct (IH _ _ H) as [B1 B2]. pose proof (connect_ok_In _ _ _ E) as C1. split.
+      * intros x Hx. apply B1, C1. now right.
+      * intros s0 w0 [E0|Hin] b Hb.
+        -- inversion E0; subst. apply (connect_ok_disj _ _ _ E). apply allbits_In. auto.
+        -- intro Hc. apply (B2 s0 w0 Hin b Hb). apply C1. now right.
+    + destruct (IH _ _ H) as [B1 B2]. split; [assumption|]. intros s0 w0 [E0|Hin] b Hb.
+      * inversion E0; subst. discriminate.
+      * now apply (B2 s0 w0).
+Qed.
+
+Lemma etp_sound : forall P conns e, NoDup (map psig P) -> emit_top_ports P conns = inr e ->
+  exists s w b, In (s, w, PIn) P /\ b < w /\ In (s, b) conns.
+Proof.
+  induction P as [|[[s w] dir] P IH]; intros conns e N H; simpl in H; [discriminate|].
+  simpl in N. inversion N as [|? ? Hn N']; subst.
+  set (isin := match dir with PIn => true | POut => false
+               | PNone => negb (existsb (fun x => bmem x conns) (map (fun b => (s, b)) (seq 0 w))) end) in H.
+  destruct isin eqn:I.
+  - fold (allbits s w) in H. destruct (connect (allbits s w) conns) as [c1|e1] eqn:E.
+    + destruct (IH _ _ N' H) as (s' & w' & b & Hin & Hb & Hc). exists s', w', b. split; [now right|]. split; [assumption|].
+      apply (connect_ok_In _ _ _ E) in Hc as [Hc|Hc]; [|assumption]. apply allbits_In in Hc as [Hs _]. simpl in Hs. subst s'.
+      exfalso. apply Hn. apply in_map_iff. exists (s, w', PIn). auto.
+    + apply connect_err in E as [s' [b [_ [Hin [Hc|Hd]]]]]; [|exfalso; apply Hd, allbits_NoDup].
+      apply allbits_In in Hin as [Hs Hb]. simpl in *. subst s'.
+      destruct dir; subst isin; try discriminate.
+      * exfalso. apply negb_true_iff in I. assert (existsb (fun x => bmem x conns) (allbits s w) = true); [|unfold allbits in *; congruence].
+        apply existsb_exists. exists (s, b). split; [apply allbits_In; auto|now apply bmem_In].
+      * exists s, w, b. split; [now left|auto].
+  - destruct (IH _ _ N' H) as (s' & w' & b & Hin & Hb & Hc). exists s', w', b. split; [now right|auto].
+Qed.
+
+(* ---- phases 2 + 3 on a driver table ---- *)
+Definition phase23 (tab : list sigdrv) (P : list (nat * nat * pdir)) (conns : list bit) : option derr :=
+  match emit_drivers tab conns with
+  | inr e => Some e
+  | inl conns' => match emit_top_ports P conns' with inr e => Some e | inl _ => None end
+  end.
+
+Definition conflictT (tab : list sigdrv) (P : list (nat * nat * pdir)) (conns : list bit) : Prop :=
+  (exists s w ds b k1 rs1 k2 rs2, In ((s, w), ds) tab /\ b < w /\ k1 <> k2 /\ In (k1, rs1) ds /\ In (k2, rs2) ds
+                                  /\ cov b rs1 /\ cov b rs2)
+  \/ (exists s w ds b k rs, In ((s, w), ds) tab /\ b < w /\ In (k, rs) ds /\ cov b rs /\ In (s, b) conns)
+  \/ (exists s w b, In (s, w, PIn) P /\ b < w /\ In (s, b) conns)
+  \/ (exists s wp w ds b k rs, In (s, wp, PIn) P /\ In ((s, w), ds) tab /\ In (k, rs) ds /\ b < w /\ b < wp /\ cov b rs).
+
+Theorem phase23_iff tab P conns : tab_ok tab -> NoDup (map psig P) ->
+  (forall s w ds k rs, In ((s, w), ds) tab -> In (k, rs) ds -> exists b, cov b rs) ->
+  (forall s wp dir w ds, In (s, wp, dir) P -> In ((s, w), ds) tab -> wp = w) ->
+  (phase23 tab P conns <> None <-> conflictT tab P conns).
+Proof.
+  intros [N T] NP Hne Hw. unfold phase23. split.
+  - destruct (emit_drivers tab conns) as [c1|e] eqn:E.
+    + destruct (emit_top_ports P c1) as [c2|e] eqn:E2; [congruence|]. intros _.
+      destruct (etp_sound _ _ _ NP E2) as (s & wp & b & Hin & Hb & Hc).
+      destruct (ed_ok _ _ _ N E) as (_ & A2 & _ & _). apply A2 in Hc as [Hc|[w [ds [H1 [H2 H3]]]]].
+      * right. right. left. exists s, wp, b. auto.
+      * simpl in *. destruct ds as [|[k rs] ds']; [congruence|].
+        destruct (Hne s w _ k rs H1 (or_introl eq_refl)) as [b' Hcv].
+        assert (wp = w) by (eapply Hw; eassumption). subst wp.
+        assert (b' < w).
+        { destruct Hcv as [r [Hr Hc]]. destruct (T s w _ H1) as [_ Hbd]. specialize (Hbd k rs r (or_introl eq_refl) Hr).
+          unfold covers in Hc. apply andb_true_iff in Hc as [_ Hc]. apply Nat.ltb_lt in Hc. lia. }
+        right. right. right. exists s, w, w, ((k, rs) :: ds'), b', k, rs. repeat split; auto. now left.
+    + intros _. destruct (ed_sound _ _ _ (conj N T) E) as (s & w & ds & b & Hin & Hb & [Hc|Hc]).
+      * left. destruct Hc as (k1 & rs1 & k2 & rs2 & H). exists s, w, ds, b, k1, rs1, k2, rs2. tauto.
+      * right. left. destruct Hc as (k & rs & H). exists s, w, ds, b, k, rs. tauto.
+  - intros C Hnone. destruct (emit_drivers tab conns) as [c1|e] eqn:E; [|congruence].
+    destruct (emit_top_ports P c1) as [c2|e] eqn:E2; [|congruence].
+    destruct (ed_ok _ _ _ N E) as (A1 & A2 & A3 & A4). destruct (etp_ok _ _ _ E2) as (B1 & B2).
+    destruct C as [C|[C|[C|C]]].
+    + destruct C as (s & w & ds & b & k1 & rs1 & k2 & rs2 & Hin & Hb & Hk & H1 & H2 & C1 & C2).
+      assert (M1 : In (s, b) (mine s w rs1)) by (apply mine_In; auto).
+      assert (M2 : In (s, b) (mine s w rs2)) by (apply mine_In; auto).
+      exact (A4 s w ds k1 rs1 k2 rs2 Hin H1 H2 Hk (s, b) M1 M2).
+    + destruct C as (s & w & ds & b & k & rs & Hin & Hb & Hk & Hc & Hcon).
+      destruct (A3 s w ds k rs Hin Hk (s, b)) as [_ X]; [apply mine_In; auto|]. contradiction.
+    + destruct C as (s & w & b & Hin & Hb & Hcon). apply (B2 s w Hin b Hb). auto.
+    + destruct C as (s & wp & w & ds & b & k & rs & Hp & Hin & Hk & Hb & Hbp & Hc).
+      destruct (A3 s w ds k rs Hin Hk (s, b)) as [X _]; [apply mine_In; auto|]. exact (B2 s wp Hp b Hbp X).
+Qed.
+
+(* ---- phase 1: the event list ---- *)
+Definition outs (E : list ev) : list bit := flat_map (fun e => match e with EvOut bits => bits | _ => [] end) E.
+Fixpoint tab_of (E : list ev) (tab : list sigdrv) : list sigdrv :=
+  match E with
+  | [] => tab
+  | EvOut _ :: r => tab_of r tab
+  | EvAssign m dm rec :: r => tab_of r (sig_add (a_sig rec) (a_w rec) (m, dm) rec tab)
+  end.
+
+Lemma connect_app a : forall b conns,
+  connect (a ++ b) conns = match connect a conns with inl c => connect b c | inr e => inr e end.
+Proof. induction a as [|x a IH]; intros b conns; simpl; [reflexivity|]. destruct (bmem x conns); [reflexivity|apply IH]. Qed.
+
+Lemma run_events_spec : forall E conns tab,
+  run_events E conns tab = match connect (outs E) conns with inl c => inl (c, tab_of E tab) | inr e => inr e end.
+Proof.
+  induction E as [|[m dm r|bits] E IH]; intros conns tab; simpl; [reflexivity|apply IH|].
+  rewrite connect_app. destruct (connect bits conns); [apply IH|reflexivity].
+Qed.
+
+(* membership of an assignment record in a driver table *)
+Definition intab (tab : list sigdrv) (s : nat) (k : nat * nat) (r : arec) : Prop :=
+  exists w ds rs, In ((s, w), ds) tab /\ In (k, rs) ds /\ In r rs.
+Definition keyeqb (a b : nat * nat) : bool := Nat.eqb (fst a) (fst b) && Nat.eqb (snd a) (snd b).
+Lemma keyeqb_eq a b : keyeqb a b = true <-> a = b.
+Proof. destruct a, b. unfold keyeqb. simpl. rewrite andb_true_iff, !Nat.eqb_eq. split; [intros [-> ->]; reflexivity|intro H; inversion H; auto]. Qed.
+
+(* rec_ok: what emit_assign records look like for width table W *)
+Definition rec_ok (W : nat -> nat) (r : arec) : Prop := a_w r = W (a_sig r) /\ a_start r + a_len r <= a_w r.
+Definition ds_inv (W : nat -> nat) (s : nat) (ds : list drv) : Prop :=
+  NoDup (map fst ds) /\ ds <> [] /\
+  forall k rs, In (k, rs) ds -> rs <> [] /\ forall r, In r rs -> a_sig r = s /\ rec_ok W r.
+Definition tab_inv (W : nat -> nat) (tab : list sigdrv) : Prop :=
+  NoDup (map esig tab) /\ forall s w ds, In ((s, w), ds) tab -> w = W s /\ ds_inv W s ds.
+
+Lemma drv_add_spec k r : forall ds k' r',
+  (exists rs, In (k', rs) (drv_add k r ds) /\ In r' rs) <-> (exists rs, In (k', rs) ds /\ In r' rs) \/ (k' = k /\ r' = r).
+Proof.
+  induction ds as [|[k0 rs0] ds IH]; intros k' r'; simpl.
+  - split; [intros [rs [[E|[]] H]]; inversion E; subst; destruct H as [->|[]]; auto|].
+    intros [[rs [[] _]]|[-> ->]]. exists [r]. split; [now left|now left].
+  - fold (keyeqb k0 k). destruct (keyeqb k0 k) eqn:E.
+    + apply keyeqb_eq in E. subst k0. split.
+      * intros [rs [[E|Hin] H]].
+        -- inversion E; subst. apply in_app_or in H as [H|[->|[]]]; [left; exists rs0; split; [now left|assumption]|now right].
+        -- left. exists rs. split; [now right|assumption].
+      * intros [[rs [[E|Hin] H]]|[-> ->]].
+        -- inversion E; subst. exists (rs ++ [r]). split; [now left|apply in_or_app; now left].
+        -- exists rs. split; [now right|assumption].
+        -- exists (rs0 ++ [r]). split; [now left|apply in_or_app; right; now left].
+    + split.
+      * intros [rs [[E0|Hin] H]].
+        -- inversion E0; subst. left. exists rs. split; [now left|assumption].
+        -- destruct (proj1 (IH k' r') (ex_intro _ rs (conj Hin H))) as [[rs1 [H1 H2]]|H1]; [left; exists rs1; split; [now right|assumption]|now right].
+      * intros [[rs [[E0|Hin] H]]|H0].
+        -- inversion E0; subst. exists rs. split; [now left|assumption].
+        -- destruct (proj2 (IH k' r') (or_introl (ex_intro _ rs (conj Hin H)))) as [rs1 [H1 H2]]. exists rs1. split; [now right|assumption].
+        -- destruct (proj2 (IH k' r') (or_intror H0)) as [rs1 [H1 H2]]. exists rs1. split; [now right|assumption].
+Qed.
+
+Lemma drv_add_keys k r : forall ds x, In x (map fst (drv_add k r ds)) <-> In x (map fst ds) \/ x = k.
+Proof.
+  induction ds as [|[k0 rs0] ds IH]; intros x; simpl; [intuition|].
+  fold (keyeqb k0 k). destruct (keyeqb k0 k) eqn:E; simpl.
+  - apply keyeqb_eq in E. subst. intuition.
+  - rewrite IH. intuition.
+Qed.
+
+Lemma drv_add_inv W k r ds : rec_ok W r -> (ds = [] \/ ds_inv W (a_sig r) ds) -> ds_inv W (a_sig r) (drv_add k r ds).
+Proof.
+  intros Hr. induction ds as [|[k0 rs0] ds IH]; intros Hd.
+  - simpl. split; [repeat constructor; intros []|]. split; [discriminate|].
+    intros k' rs [E|[]]. inversion E; subst. split; [discriminate|]. intros r' [<-|[]]. auto.
+  - destruct Hd as [Hd|(N & _ & H)]; [discriminate|]. simpl. fold (keyeqb k0 k). destruct (keyeqb k0 k) eqn:E.
+    + split; [exact N|]. split; [discriminate|]. intros k' rs [E0|Hin].
+      * inversion E0; subst. split; [destruct rs0; discriminate|]. intros r' Hr'. apply in_app_or in Hr' as [Hr'|[<-|[]]]; [|auto].
+        exact (proj2 (H k' rs0 (or_introl eq_refl)) r' Hr').
+      * apply (H k' rs). now right.
+    + simpl in N. inversion N as [|? ? Hn N']; subst.
+      assert (IH' : ds_inv W (a_sig r) (drv_add k r ds)).
+      { apply IH. destruct ds; [now left|right]. split; [assumption|]. split; [discriminate|]. intros k1 rs1 Hi; apply (H k1 rs1); now right. }
+      destruct IH' as (N1 & _ & H1). split; [|split; [discriminate|]].
+      * simpl. constructor; [|assumption]. intro Hin. apply drv_add_keys in Hin as [Hin|Hin]; [contradiction|].
+        subst k0. assert (keyeqb k k = true) by now apply keyeqb_eq. congruence.
+      * intros k' rs [E0|Hin]; [inversion E0; subst; eapply H; now left|eapply H1; eassumption].
+Qed.
+
+Lemma sig_add_spec s w k r : forall tab s' k' r',
+  intab (sig_add s w k r tab) s' k' r' <-> intab tab s' k' r' \/ (s' = s /\ k' = k /\ r' = r).
+Proof.
+  unfold intab. induction tab as [|[[s0 w0] ds0] tab IH]; intros s' k' r'; simpl.
+  - split.
+    + intros (w1 & ds & rs & [E|[]] & H1 & H2). inversion E; subst. destruct H1 as [E1|[]]. inversion E1; subst.
+      destruct H2 as [->|[]]. auto.
+    + intros [(w1 & ds & rs & [] & _)|(-> & -> & ->)]. exists w, [(k, [r])], [r]. repeat split; now left.
+  - destruct (Nat.eqb s0 s) eqn:E.
+    + apply Nat.eqb_eq in E. subst s0. split.
+      * intros (w1 & ds & rs & [E0|Hin] & H1 & H2).
+        -- inversion E0; subst. destruct (proj1 (drv_add_spec k r ds0 k' r') (ex_intro _ rs (conj H1 H2))) as [[rs1 [A B]]|[-> ->]].
+           ++ left. exists w1, ds0, rs1. repeat split; simpl; auto.
+           ++ now right.
+        -- left. exists w1, ds, rs. repeat split; simpl; auto.
+      * intros [(w1 & ds & rs & [E0|Hin] & H1 & H2)|(-> & -> & ->)].
+        -- inversion E0; subst. destruct (proj2 (drv_add_spec k r ds k' r') (or_introl (ex_intro _ rs (conj H1 H2)))) as [rs1 [A B]].
+           exists w1, (drv_add k r ds), rs1. repeat split; simpl; auto.
+        -- exists w1, ds, rs. repeat split; simpl; auto.
+        -- destruct (proj2 (drv_add_spec k r ds0 k r) (or_intror (conj eq_refl eq_refl))) as [rs1 [A B]].
+           exists w0, (drv_add k r ds0), rs1. repeat split; simpl; auto.
+    + split.
+      * intros (w1 & ds & rs & [E0|Hin] & H1 & H2).
+        -- inversion E0; subst. left. exists w1, ds, rs. repeat split; simpl; auto.
+        -- destruct (proj1 (IH s' k' r') (ex_intro _ w1 (ex_intro _ ds (ex_intro _ rs (conj Hin (conj H1 H2)))))) as [(w2 & ds2 & rs2 & A & B & C)|H0].
+           ++ left. exists w2, ds2, rs2. repeat split; simpl; auto.
+           ++ now right.
+      * intros [(w1 & ds & rs & [E0|Hin] & H1 & H2)|H0].
+        -- inversion E0; subst. exists w1, ds, rs. repeat split; simpl; auto.
+        -- destruct (proj2 (IH s' k' r') (or_introl (ex_intro _ w1 (ex_intro _ ds (ex_intro _ rs (conj Hin (conj H1 H2))))))) as (w2 & ds2 & rs2 & A & B & C).
+           exists w2, ds2, rs2. repeat split; simpl; auto.
+        -- destruct (proj2 (IH s' k' r') (or_intror H0)) as (w2 & ds2 & rs2 & A & B & C).
+           exists w2, ds2, rs2. repeat split; simpl; auto.
+Qed.
+
+Lemma sig_add_sigs s w k r : forall tab x, In x (map esig (sig_add s w k r tab)) <-> In x (map esig tab) \/ x = s.
+Proof.
+  induction tab as [|[[s0 w0] ds0] tab IH]; intros x; simpl; [unfold esig; simpl; intuition|].
+  destruct (Nat.eqb s0 s) eqn:E; simpl.
+  - apply Nat.eqb_eq in E. subst. unfold esig; simpl. intuition.
+  - rewrite IH. unfold esig; simpl. intuition.
+Qed.
+
+Lemma sig_add_inv W k r : rec_ok W r -> forall tab, tab_inv W tab -> tab_inv W (sig_add (a_sig r) (a_w r) k r tab).
+Proof.
+  intros Hr. induction tab as [|[[s0 w0] ds0] tab IH]; intros [N T].
+  - simpl. split; [repeat constructor; intros []|]. intros s w ds [E|[]]. inversion E; subst. split; [apply Hr|].
+    apply (drv_add_inv W k r []); auto.
+  - simpl. simpl in N. inversion N as [|? ? Hn N']; subst. destruct (Nat.eqb s0 (a_sig r)) eqn:E.
+    + apply Nat.eqb_eq in E. subst s0. split; [exact N|]. intros s w ds [E0|Hin]; [|apply T; now right].
+      inversion E0; subst. destruct (T _ _ _ (or_introl eq_refl)) as [Hw Hd]. split; [assumption|]. apply drv_add_inv; auto.
+    + destruct (IH (conj N' (fun s w ds H => T s w ds (or_intror H)))) as [N1 T1]. split.
+      * simpl. constructor; [|assumption]. intro Hin. apply sig_add_sigs in Hin as [Hin|Hin]; [contradiction|].
+        unfold esig in Hin. simpl in Hin. subst s0. now rewrite Nat.eqb_refl in E.
+      * intros s w ds [E0|Hin]; [inversion E0; subst; apply T; now left|now apply T1].
+Qed.
+
+Lemma tab_of_inv W : forall E tab, (forall m dm r, In (EvAssign m dm r) E -> rec_ok W r) -> tab_inv W tab -> tab_inv W (tab_of E tab).
+Proof.
+  induction E as [|[m dm r|bits] E IH]; intros tab H T; simpl; [assumption| |].
+  - apply IH; [intros; eapply H; right; eassumption|]. apply sig_add_inv; [eapply H; now left|assumption].
+  - apply IH; [intros; eapply H; right; eassumption|assumption].
+Qed.
+
+Lemma tab_of_spec : forall E tab s k r,
+  intab (tab_of E tab) s k r <-> intab tab s k r \/ (In (EvAssign (fst k) (snd k) r) E /\ a_sig r = s).
+Proof.
+  induction E as [|[m dm r0|bits] E IH]; intros tab s k r; simpl.
+  - tauto.
+  - rewrite IH, sig_add_spec. split.
+    + intros [[H|(-> & -> & ->)]|[H1 H2]]; [now left|right; split; [now left|reflexivity]|right; split; [now right|assumption]].
+    + intros [H|[[H|H] H2]]; [left; now left| |right; auto].
+      inversion H; subst. left. right. destruct k; simpl. auto.
+  - rewrite IH. split; [intros [H|[H1 H2]]; [now left|right; split; [now right|assumption]]|].
+    intros [H|[[H|H] H2]]; [now left|discriminate|right; auto].
+Qed.
+
+Definition run (E : list ev) (P : list (nat * nat * pdir)) : option derr :=
+  match run_events E [] [] with inr e => Some e | inl (c, tab) => phase23 tab P c end.
+
+Definition asg (E : list ev) (k : nat * nat) (s b : nat) : Prop :=
+  exists r, In (EvAssign (fst k) (snd k) r) E /\ a_sig r = s /\ covers b r = true.
+
+Definition conflictE (E : list ev) (P : list (nat * nat * pdir)) : Prop :=
+  ~ NoDup (outs E)
+  \/ (exists s b k1 k2, k1 <> k2 /\ asg E k1 s b /\ asg E k2 s b)
+  \/ (exists s b k, asg E k s b /\ In (s, b) (outs E))
+  \/ (exists s w b, In (s, w, PIn) P /\ b < w /\ In (s, b) (outs E))
+  \/ (exists s w b k, In (s, w, PIn) P /\ b < w /\ asg E k s b).
+
+Lemma ds_same_key (ds : list drv) k rs1 rs2 : NoDup (map fst ds) -> In (k, rs1) ds -> In (k, rs2) ds -> rs1 = rs2.
+Proof.
+  induction ds as [|[k0 rs0] ds IH]; intros N H1 H2; [destruct H1|]. simpl in N. inversion N as [|? ? Hn N']; subst.
+  destruct H1 as [E1|H1], H2 as [E2|H2].
+  - congruence.
+  - inversion E1; subst. exfalso. apply Hn. apply in_map_iff. exists (k, rs2). auto.
+  - inversion E2; subst. exfalso. apply Hn. apply in_map_iff. exists (k, rs1). auto.
+  - now apply IH.
+Qed.
+
+Section Events.
+Variable W : nat -> nat.
+Variable E : list ev.
+Variable P : list (nat * nat * pdir).
+Hypothesis Hrec : forall m dm r, In (EvAssign m dm r) E -> rec_ok W r.
+Hypothesis HP : NoDup (map psig P).
+Hypothesis HPw : forall s w dir, In (s, w, dir) P -> w = W s.
+Hypothesis Hnz : forall m dm r, In (EvAssign m dm r) E ->
+  exists r', In (EvAssign m dm r') E /\ a_sig r' = a_sig r /\ 0 < a_len r'.
+
+Let tab := tab_of E [].
+Lemma tabI : tab_inv W tab.
+Proof. apply tab_of_inv; [exact Hrec|]. split; [constructor|intros ? ? ? []]. Qed.
+
+Lemma intab_E s k r : intab tab s k r <-> In (EvAssign (fst k) (snd k) r) E /\ a_sig r = s.
+Proof. unfold tab. rewrite tab_of_spec. split; [intros [(w & ds & rs & [] & _)|H]; exact H|auto]. Qed.
+
+Lemma cov_lt s w ds k rs b : In ((s, w), ds) tab -> In (k, rs) ds -> cov b rs -> b < w.
+Proof.
+  intros H1 H2 [r [Hr Hc]]. destruct tabI as [_ T]. destruct (T s w ds H1) as [Hw (_ & _ & Hd)].
+  destruct (Hd k rs H2) as [_ Hr']. destruct (Hr' r Hr) as [Hs [Ha Hb]]. unfold covers in Hc.
+  apply andb_true_iff in Hc as [_ Hc]. apply Nat.ltb_lt in Hc. rewrite Ha, Hs, <- Hw in Hb. lia.
+Qed.
+
+Lemma cov_asg s k b : (exists w ds rs, In ((s, w), ds) tab /\ In (k, rs) ds /\ cov b rs) <-> asg E k s b.
+Proof.
+  split.
+  - intros (w & ds & rs & H1 & H2 & [r [Hr Hc]]). exists r.
+    destruct (proj1 (intab_E s k r)) as [A B]; [exists w, ds, rs; auto|]. auto.
+  - intros (r & H1 & H2 & H3). destruct (proj2 (intab_E s k r) (conj H1 H2)) as (w & ds & rs & A & B & C).
+    exists w, ds, rs. repeat split; auto. exists r. auto.
+Qed.
+
+Lemma tab_ok_tab : tab_ok tab.
+Proof.
+  destruct tabI as [N T]. split; [exact N|]. intros s w ds H. destruct (T s w ds H) as [Hw (Nk & _ & Hd)]. split; [exact Nk|].
+  intros k rs r H1 H2. destruct (Hd k rs H1) as [_ Hr]. destruct (Hr r H2) as [Hs [Ha Hb]]. rewrite Ha, Hs, <- Hw in Hb. exact Hb.
+Qed.
+
+Lemma tab_nonempty s w ds k rs : In ((s, w), ds) tab -> In (k, rs) ds -> exists b, cov b rs.
+Proof.
+  intros H1 H2. destruct tabI as [N T]. destruct (T s w ds H1) as [Hw (Nk & _ & Hd)]. destruct (Hd k rs H2) as [Hne _].
+  destruct rs as [|r0 rs']; [congruence|].
+  destruct (proj1 (intab_E s k r0)) as [A B]; [exists w, ds, (r0 :: rs'); repeat split; auto; now left|].
+  destruct (Hnz _ _ _ A) as (r' & A' & B' & C').
+  destruct (proj2 (intab_E s k r') (conj A' (eq_trans B' B))) as (w2 & ds2 & rs2 & X & Y & Z).
+  destruct (tab_same_entry tab s w ds w2 ds2 N H1 X) as [-> ->].
+  rewrite (ds_same_key ds2 k (r0 :: rs') rs2 Nk H2 Y). exists (a_start r'), r'. split; [assumption|].
+  unfold covers. rewrite Nat.leb_refl. simpl. apply Nat.ltb_lt. lia.
+Qed.
+
+Theorem events_iff : run E P <> None <-> conflictE E P.
+Proof.
+  unfold run. rewrite run_events_spec. fold tab.
+  destruct (connect (outs E) []) as [c|e] eqn:Ec.
+  - pose proof (proj1 (connect_spec _ _ _) Ec) as [Nd [_ Hc]].
+    assert (Cin : forall x, In x c <-> In x (outs E)) by (intro x; rewrite Hc, app_nil_r, <- in_rev; tauto).
+    rewrite (phase23_iff tab P c tab_ok_tab HP tab_nonempty).
+    2:{ intros s wp dir w ds H1 H2. rewrite (HPw _ _ _ H1). destruct tabI as [_ T]. destruct (T s w ds H2) as [Hw _]. auto. }
+    unfold conflictT, conflictE. split.
+    + intros [C|[C|[C|C]]].
+      * destruct C as (s & w & ds & b & k1 & rs1 & k2 & rs2 & Hin & Hb & Hk & H1 & H2 & C1 & C2).
+        right. left. exists s, b, k1, k2. split; [assumption|]. split; apply cov_asg; [exists w, ds, rs1|exists w, ds, rs2]; auto.
+      * destruct C as (s & w & ds & b & k & rs & Hin & Hb & Hk & C1 & C2).
+        right. right. left. exists s, b, k. split; [apply cov_asg; exists w, ds, rs; auto|now apply Cin].
+      * destruct C as (s & w & b & Hin & Hb & C1). right. right. right. left. exists s, w, b. repeat split; auto. now apply Cin.
+      * destruct C as (s & wp & w & ds & b & k & rs & Hp & Hin & Hk & Hb & Hbp & C1).
+        right. right. right. right. exists s, wp, b, k. repeat split; auto. apply cov_asg. exists w, ds, rs. auto.
+    + intros [C|[C|[C|[C|C]]]].
+      * contradiction.
+      * destruct C as (s & b & k1 & k2 & Hk & A1 & A2).
+        apply cov_asg in A1 as (w1 & ds1 & rs1 & X1 & Y1 & Z1). apply cov_asg in A2 as (w2 & ds2 & rs2 & X2 & Y2 & Z2).
+        destruct (tab_same_entry tab s w1 ds1 w2 ds2 (proj1 tabI) X1 X2) as [-> ->].
+        left. exists s, w2, ds2, b, k1, rs1, k2, rs2. repeat split; auto. eapply cov_lt; eassumption.
+      * destruct C as (s & b & k & A1 & Ho). apply cov_asg in A1 as (w1 & ds1 & rs1 & X1 & Y1 & Z1).
+        right. left. exists s, w1, ds1, b, k, rs1. repeat split; auto; [eapply cov_lt; eassumption|now apply Cin].
+      * destruct C as (s & w & b & Hp & Hb & Ho). right. right. left. exists s, w, b. repeat split; auto. now apply Cin.
+      * destruct C as (s & wp & b & k & Hp & Hb & A1). apply cov_asg in A1 as (w1 & ds1 & rs1 & X1 & Y1 & Z1).
+        right. right. right. exists s, wp, w1, ds1, b, k, rs1. repeat split; auto. eapply cov_lt; eassumption.
+  - split; [intros _|intros _; discriminate].
+    left. intro Nd. apply connect_err in Ec as (s & b & _ & _ & [[]|Hd]). contradiction.
+Qed.
+End Events.
+
+(* ---- the walk of the fragment tree ---- *)
+Section frag_induction.
+  Variable Pf : frag -> Prop.
+  Hypothesis HOut : forall outs, Pf (FOut outs).
+  Hypothesis HMod : forall stmts subs, Forall Pf subs -> Pf (FMod stmts subs).
+  Fixpoint frag_ind' (f : frag) : Pf f :=
+    match f with
+    | FOut o => HOut o
+    | FMod stmts subs => HMod stmts subs ((fix go (l : list frag) : Forall Pf l :=
+                           match l with [] => Forall_nil Pf | x :: r => Forall_cons x (frag_ind' x) (go r) end) subs)
+    end.
+End frag_induction.
+
+Definition walk_subs := fix go (subs : list frag) (acc : list ev) (next : nat) : list ev * nat :=
+  match subs with
+  | [] => (acc, next)
+  | s :: subs' => let '(e, next') := walk s next in go subs' (acc ++ e) next'
+  end.
+Definition mods_subs := fix go (subs : list frag) (acc : list (nat * list (nat * tgt))) (next : nat) :=
+  match subs with
+  | [] => (acc, next)
+  | s :: subs' => let '(l, next') := mods s next in go subs' (acc ++ l) next'
+  end.
+Definition own_events (m : nat) (stmts : list (nat * tgt)) : list ev :=
+  flat_map (fun g => flat_map (stmt_events m (fst g)) (snd g)) (group_by_domain stmts).
+Lemma walk_FMod stmts subs next : walk (FMod stmts subs) next = walk_subs subs (own_events next stmts) (S next).
+Proof. reflexivity. Qed.
+Lemma mods_FMod stmts subs next : mods (FMod stmts subs) next = mods_subs subs [(next, stmts)] (S next).
+Proof. reflexivity. Qed.
+
+Lemma dom_insert_spec dm t : forall acc d t',
+  (exists ts, In (d, ts) (dom_insert dm t acc) /\ In t' ts) <-> (exists ts, In (d, ts) acc /\ In t' ts) \/ (d = dm /\ t' = t).
+Proof.
+  induction acc as [|[d0 ts0] acc IH]; intros d t'; simpl.
+  - split; [intros [ts [[E|[]] H]]; inversion E; subst; destruct H as [->|[]]; auto|].
+    intros [[ts [[] _]]|[-> ->]]. exists [t]. split; now left.
+  - destruct (Nat.eqb d0 dm) eqn:E.
+    + apply Nat.eqb_eq in E. subst d0. split.
+      * intros [ts [[E|Hin] H]].
+        -- inversion E; subst. apply in_app_or in H as [H|[->|[]]]; [left; exists ts0; split; [now left|assumption]|now right].
+        -- left. exists ts. split; [now right|assumption].
+      * intros [[ts [[E|Hin] H]]|[-> ->]].
+        -- inversion E; subst. exists (ts ++ [t]). split; [now left|apply in_or_app; now left].
+        -- exists ts. split; [now right|assumption].
+        -- exists (ts0 ++ [t]). split; [now left|apply in_or_app; right; now left].
+    + split.
+      * intros [ts [[E0|Hin] H]].
+        -- inversion E0; subst. left. exists ts. split; [now left|assumption].
+        -- destruct (proj1 (IH d t') (ex_intro _ ts (conj Hin H))) as [[ts1 [H1 H2]]|H1]; [left; exists ts1; split; [now right|assumption]|now right].
+      * intros [[ts [[E0|Hin] H]]|H0].
+        -- inversion E0; subst. exists ts. split; [now left|assumption].
+        -- destruct (proj2 (IH d t') (or_introl (ex_intro _ ts (conj Hin H)))) as [ts1 [H1 H2]]. exists ts1. split; [now right|assumption].
+        -- destruct (proj2 (IH d t') (or_intror H0)) as [ts1 [H1 H2]]. exists ts1. split; [now right|assumption].
+Qed.
+
+Lemma group_spec : forall stmts acc d t,
+  (exists ts, In (d, ts) (fold_left (fun a st => dom_insert (fst st) (snd st) a) stmts acc) /\ In t ts)
+  <-> (exists ts, In (d, ts) acc /\ In t ts) \/ In (d, t) stmts.
+Proof.
+  induction stmts as [|[d0 t0] stmts IH]; intros acc d t; simpl; [tauto|].
+  rewrite IH, dom_insert_spec. split.
+  - intros [[H|[-> ->]]|H]; auto.
+  - intros [H|[H|H]]; auto. inversion H; subst. auto.
+Qed.
+
+Lemma own_events_In m stmts e : In e (own_events m stmts) <->
+  exists dm t r, e = EvAssign m dm r /\ In (dm, t) stmts /\ In r (emit_assign t 0 (tlen t)).
+Proof.
+  unfold own_events, group_by_domain. rewrite in_flat_map. split.
+  - intros [[d ts] [H1 H2]]. simpl in H2. apply in_flat_map in H2 as [t [H2 H3]]. unfold stmt_events in H3.
+    apply in_map_iff in H3 as [r [<- H3]]. exists d, t, r. split; [reflexivity|]. split; [|assumption].
+    destruct (proj1 (group_spec stmts [] d t) (ex_intro _ ts (conj H1 H2))) as [[ts' [[] _]]|H]. exact H.
+  - intros (dm & t & r & -> & H1 & H2).
+    destruct (proj2 (group_spec stmts [] dm t) (or_intror H1)) as [ts [A B]]. exists (dm, ts). split; [assumption|].
+    simpl. apply in_flat_map. exists t. split; [assumption|]. unfold stmt_events. apply in_map. assumption.
+Qed.
+
+(* what the walk yields for a fragment, in terms of mods / out_bits *)
+Definition walk_spec (f : frag) : Prop := forall k,
+  snd (walk f k) = snd (mods f k) /\
+  outs (fst (walk f k)) = out_bits f /\
+  (forall m dm r, In (EvAssign m dm r) (fst (walk f k)) <->
+     exists stmts t, In (m, stmts) (fst (mods f k)) /\ In (dm, t) stmts /\ In r (emit_assign t 0 (tlen t))).
+
+Lemma outs_app a b : outs (a ++ b) = outs a ++ outs b.
+Proof. unfold outs. apply flat_map_app. Qed.
+
+Definition ev_mods (E' : list ev) (M' : list (nat * list (nat * tgt))) : Prop :=
+  forall m dm r, In (EvAssign m dm r) E' <->
+    exists stmts t, In (m, stmts) M' /\ In (dm, t) stmts /\ In r (emit_assign t 0 (tlen t)).
+
+Lemma subs_spec : forall subs, Forall walk_spec subs -> forall k,
+  exists E' M' k', (forall acc, walk_subs subs acc k = (acc ++ E', k')) /\
+                   (forall macc, mods_subs subs macc k = (macc ++ M', k')) /\
+                   outs E' = flat_map out_bits subs /\ ev_mods E' M'.
+Proof.
+  induction subs as [|s subs IH]; intros F k.
+  - exists [], [], k. repeat split; intros; simpl; try now rewrite app_nil_r.
+    + destruct H.
+    + destruct H as (? & ? & [] & _).
+  - inversion F as [|? ? Hs Hr]; subst. destruct (Hs k) as (A & B & C).
+    destruct (walk s k) as [e k1] eqn:Ew. destruct (mods s k) as [l k1'] eqn:Em. simpl in A, B, C. subst k1'.
+    destruct (IH Hr k1) as (E2 & M2 & k2 & W2 & Mo2 & O2 & R2).
+    exists (e ++ E2), (l ++ M2), k2. split; [|split; [|split]].
+    + intro acc. simpl. rewrite Ew, W2. now rewrite app_assoc.
+    + intro macc. simpl. rewrite Em, Mo2. now rewrite app_assoc.
+    + rewrite outs_app, B, O2. reflexivity.
+    + intros m dm r. rewrite in_app_iff, (C m dm r), (R2 m dm r). split.
+      * intros [(st & t & H1 & H2)|(st & t & H1 & H2)]; exists st, t; (split; [apply in_or_app; auto|exact H2]).
+      * intros (st & t & H1 & H2). apply in_app_or in H1 as [H1|H1]; [left|right]; exists st, t; auto.
+Qed.
+
+Lemma outs_nil E : (forall e, In e E -> exists m dm r, e = EvAssign m dm r) -> outs E = [].
+Proof.
+  induction E as [|e E IH]; intro H; [reflexivity|]. unfold outs in *. simpl.
+  destruct (H e (or_introl eq_refl)) as (m & dm & r & ->). simpl. apply IH. intros; apply H; now right.
+Qed.
+Lemma outs_own m stmts : outs (own_events m stmts) = [].
+Proof. apply outs_nil. intros e He. apply own_events_In in He as (dm & t & r & -> & _). eauto. Qed.
+
+Lemma walk_ok : forall f, walk_spec f.
+Proof.
+  induction f as [o|stmts subs IH] using frag_ind'; intro k.
+  - simpl. split; [reflexivity|]. split.
+    + unfold outs. rewrite flat_map_concat_map, map_map, <- flat_map_concat_map. reflexivity.
+    + intros m dm r. split; [intro H; apply in_map_iff in H as [t [E _]]; discriminate|intros (? & ? & [] & _)].
+  - rewrite walk_FMod, mods_FMod. destruct (subs_spec subs IH (S k)) as (E2 & M2 & k2 & W2 & Mo2 & O2 & R2).
+    rewrite W2, Mo2. simpl. split; [reflexivity|]. split.
+    + rewrite outs_app, outs_own, O2. reflexivity.
+    + intros m dm r. rewrite in_app_iff, own_events_In, (R2 m dm r). split.
+      * intros [(dm0 & t & r0 & E0 & H1 & H2)|(st & t & H1 & H2)].
+        -- inversion E0; subst. exists stmts, t. split; [now left|auto].
+        -- exists st, t. split; [now right|exact H2].
+      * intros (st & t & [E0|H1] & H2).
+        -- inversion E0; subst. left. exists dm, t, r. destruct H2. auto.
+        -- right. exists st, t. auto.
+Qed.
+
+(* ---- the unbounded theorem ---- *)
+Lemma driver_table_run d : driver_table d = run (fst (walk (d_top d) 0)) (d_ports d).
+Proof.
+  unfold driver_table, run, phase23. destruct (run_events _ [] []) as [[c tab]|e]; reflexivity.
+Qed.
+
+Lemma dup_nth : forall l : list bit, ~ NoDup l -> exists i j x, i <> j /\ nth_error l i = Some x /\ nth_error l j = Some x.
+Proof.
+  induction l as [|x l IH]; intro H; [exfalso; apply H; constructor|].
+  destruct (bmem x l) eqn:E.
+  - apply bmem_In, In_nth_error in E as [j Hj]. exists 0, (S j), x. auto.
+  - destruct IH as (i & j & y & Hne & Hi & Hj).
+    + intro N. apply H. constructor; [|assumption]. intro Hin. apply bmem_In in Hin. congruence.
+    + exists (S i), (S j), y. auto.
+Qed.
+Lemma nth_dup {A} (l : list A) i j x : i <> j -> nth_error l i = Some x -> nth_error l j = Some x -> ~ NoDup l.
+Proof.
+  intros Hne Hi Hj N. apply Hne. apply (proj1 (NoDup_nth_error l) N); [apply nth_error_Some; congruence|congruence].
+Qed.
+
+(* what a design must satisfy: targets the API can build; one width per signal (table W), in targets and ports; every
+   driver the emitter creates has at least one bit (excludes the zero-width finding); every signal is a port at most
+   once *)
+Definition wf_design (W : nat -> nat) (d : design) : Prop :=
+  let E := fst (walk (d_top d) 0) in
+  (forall m stmts dm t, In (m, stmts) (fst (mods (d_top d) 0)) -> In (dm, t) stmts -> wf_tgt_top t = true) /\
+  (forall m stmts dm t s w, In (m, stmts) (fst (mods (d_top d) 0)) -> In (dm, t) stmts -> In (s, w) (tgt_sigs t) -> w = W s) /\
+  (forall m dm r, In (EvAssign m dm r) E -> exists r', In (EvAssign m dm r') E /\ a_sig r' = a_sig r /\ 0 < a_len r') /\
+  NoDup (map psig (d_ports d)) /\
+  (forall s w dir, In (s, w, dir) (d_ports d) -> w = W s).
+
+Theorem driver_check_iff W d : wf_design W d -> (driver_table d <> None <-> conflict d).
+Proof.
+  intros (Wt & Ws & Wn & Wp & Ww). rewrite driver_table_run.
+  destruct (walk_ok (d_top d) 0) as (_ & Ho & Hm).
+  assert (Wr : forall m dm r, In (EvAssign m dm r) (fst (walk (d_top d) 0)) -> rec_ok W r).
+  { intros m dm r Hr. apply Hm in Hr as (stmts & t & H1 & H2 & H3).
+    destruct (emit_assign_bounds t (wf_top_wf t (Wt _ _ _ _ H1 H2)) 0 (tlen t) r (le_n _) H3) as [A B].
+    split; [exact (Ws _ _ _ _ _ _ H1 H2 A)|exact B]. }
+  rewrite (events_iff W _ _ Wr Wp Ww Wn).
+  set (E := fst (walk (d_top d) 0)) in *.
+  assert (Hlog : forall x m dm, has_source d x (SrcLogic m dm) <-> asg E (m, dm) (fst x) (snd x)).
+  { intros x m dm. simpl. unfold asg. simpl. split.
+    - intros (stmts & t & H1 & H2 & H3). apply (emit_assign_spec_top t (Wt _ _ _ _ H1 H2)) in H3 as (r & Hr & Hs & Hc).
+      exists r. split; [apply Hm; eauto|]. split; [assumption|]. unfold covers. apply andb_true_iff. split; [apply Nat.leb_le|apply Nat.ltb_lt]; lia.
+    - intros (r & Hr & Hs & Hc). apply Hm in Hr as (stmts & t & H1 & H2 & H3). exists stmts, t. split; [assumption|]. split; [assumption|].
+      apply (emit_assign_spec_top t (Wt _ _ _ _ H1 H2)). exists r. split; [assumption|]. split; [assumption|].
+      unfold covers in Hc. apply andb_true_iff in Hc as [A B]. apply Nat.leb_le in A. apply Nat.ltb_lt in B. lia. }
+  unfold conflict, conflictE. rewrite Ho. split.
+  - intros [C|[C|[C|[C|C]]]].
+    + destruct (dup_nth _ C) as (i & j & x & Hne & Hi & Hj). exists x, (SrcOut i), (SrcOut j). split; [congruence|]. simpl. auto.
+    + destruct C as (s & b & k1 & k2 & Hk & A1 & A2). exists (s, b), (SrcLogic (fst k1) (snd k1)), (SrcLogic (fst k2) (snd k2)).
+      split; [intro H; inversion H; apply Hk; destruct k1, k2; simpl in *; congruence|].
+      split; apply Hlog; simpl; rewrite <- surjective_pairing; assumption.
+    + destruct C as (s & b & k & A1 & Hin). apply In_nth_error in Hin as [i Hi].
+      exists (s, b), (SrcLogic (fst k) (snd k)), (SrcOut i). split; [discriminate|]. split; [apply Hlog; simpl; rewrite <- surjective_pairing; assumption|exact Hi].
+    + destruct C as (s & w & b & Hp & Hb & Hin). apply In_nth_error in Hin as [i Hi]. apply In_nth_error in Hp as [j Hj].
+      exists (s, b), (SrcOut i), (SrcPort j). split; [discriminate|]. split; [exact Hi|]. simpl. eauto.
+    + destruct C as (s & w & b & k & Hp & Hb & A1). apply In_nth_error in Hp as [j Hj].
+      exists (s, b), (SrcLogic (fst k) (snd k)), (SrcPort j). split; [discriminate|].
+      split; [apply Hlog; simpl; rewrite <- surjective_pairing; assumption|]. simpl. eauto.
+  - intros (x & s1 & s2 & Hne & H1 & H2).
+    assert (Port : forall k, has_source d x (SrcPort k) -> exists w, In (fst x, w, PIn) (d_ports d) /\ snd x < w).
+    { intros k (w & Hk & Hb). exists w. split; [eapply nth_error_In; eassumption|assumption]. }
+    destruct s1 as [m1 d1|i1|p1], s2 as [m2 d2|i2|p2].
+    + right. left. exists (fst x), (snd x), (m1, d1), (m2, d2). split; [congruence|]. split; now apply Hlog.
+    + right. right. left. exists (fst x), (snd x), (m1, d1). split; [now apply Hlog|]. rewrite <- surjective_pairing. eapply nth_error_In; exact H2.
+    + destruct (Port _ H2) as (w & A & B). right. right. right. right. exists (fst x), w, (snd x), (m1, d1). repeat split; auto. now apply Hlog.
+    + right. right. left. exists (fst x), (snd x), (m2, d2). split; [now apply Hlog|]. rewrite <- surjective_pairing. eapply nth_error_In; exact H1.
+    + left. simpl in H1, H2. eapply nth_dup; [|exact H1|exact H2]. congruence.
+    + destruct (Port _ H2) as (w & A & B). right. right. right. left. exists (fst x), w, (snd x). repeat split; auto.
+      rewrite <- surjective_pairing. eapply nth_error_In; exact H1.
+    + destruct (Port _ H1) as (w & A & B). right. right. right. right. exists (fst x), w, (snd x), (m2, d2). repeat split; auto. now apply Hlog.
+    + destruct (Port _ H1) as (w & A & B). right. right. right. left. exists (fst x), w, (snd x). repeat split; auto.
+      rewrite <- surjective_pairing. eapply nth_error_In; exact H2.
+    + (* two Input ports on one signal: excluded *)
+      exfalso. destruct H1 as (w1 & K1 & _), H2 as (w2 & K2 & _).
+      apply (nth_dup (map psig (d_ports d)) p1 p2 (fst x)); [congruence| | |exact Wp];
+        rewrite nth_error_map; [rewrite K1|rewrite K2]; reflexivity.
+Qed.
+
+(* a computable check of wf_design (for concrete designs) *)
+Fixpoint nodupn (l : list nat) : bool :=
+  match l with [] => true | x :: r => negb (existsb (Nat.eqb x) r) && nodupn r end.
+Lemma nodupn_NoDup l : nodupn l = true -> NoDup l.
+Proof.
+  induction l as [|x r IH]; simpl; [constructor|]. intro H. apply andb_true_iff in H as [H1 H2]. constructor; [|now apply IH].
+  intro Hin. apply negb_true_iff in H1. assert (existsb (Nat.eqb x) r = true); [|congruence].
+  apply existsb_exists. exists x. split; [assumption|apply Nat.eqb_refl].
+Qed.
+Definition assign_evs (E : list ev) : list (nat * nat * arec) :=
+  flat_map (fun e => match e with EvAssign m dm r => [(m, dm, r)] | _ => [] end) E.
+Lemma assign_evs_In E m dm r : In (m, dm, r) (assign_evs E) <-> In (EvAssign m dm r) E.
+Proof.
+  unfold assign_evs. rewrite in_flat_map. split.
+  - intros [[m0 dm0 r0|bits] [H1 H2]]; simpl in H2; [destruct H2 as [H2|[]]; inversion H2; subst; assumption|destruct H2].
+  - intro H. exists (EvAssign m dm r). split; [assumption|now left].
+Qed.
+Definition wf_designb (W : nat -> nat) (d : design) : bool :=
+  let E := assign_evs (fst (walk (d_top d) 0)) in
+  forallb (fun ms => forallb (fun st => wf_tgt_top (snd st)) (snd ms)) (fst (mods (d_top d) 0))
+  && forallb (fun ms => forallb (fun st => forallb (fun sw => Nat.eqb (snd sw) (W (fst sw))) (tgt_sigs (snd st))) (snd ms))
+             (fst (mods (d_top d) 0))
+  && forallb (fun a => existsb (fun a' => Nat.eqb (fst (fst a')) (fst (fst a)) && Nat.eqb (snd (fst a')) (snd (fst a))
+                                           && Nat.eqb (a_sig (snd a')) (a_sig (snd a)) && (0 <? a_len (snd a'))) E) E
+  && nodupn (map psig (d_ports d))
+  && forallb (fun p => Nat.eqb (snd (fst p)) (W (fst (fst p)))) (d_ports d).
+
+Lemma wf_designb_sound W d : wf_designb W d = true -> wf_design W d.
+Proof.
+  unfold wf_designb, wf_design. intro H.
+  apply andb_true_iff in H as [H H5]. apply andb_true_iff in H as [H H4]. apply andb_true_iff in H as [H H3].
+  apply andb_true_iff in H as [H1 H2]. rewrite forallb_forall in H1, H2, H3, H5. repeat split.
+  - intros m stmts dm t A B. specialize (H1 _ A). simpl in H1. rewrite forallb_forall in H1. exact (H1 _ B).
+  - intros m stmts dm t s w A B C. specialize (H2 _ A). simpl in H2. rewrite forallb_forall in H2. specialize (H2 _ B).
+    simpl in H2. rewrite forallb_forall in H2. specialize (H2 _ C). simpl in H2. now apply Nat.eqb_eq.
+  - intros m dm r A. apply assign_evs_In in A. specialize (H3 _ A). apply existsb_exists in H3 as [[[m' dm'] r'] [B C]]. simpl in C.
+    apply andb_true_iff in C as [C C4]. apply andb_true_iff in C as [C C3]. apply andb_true_iff in C as [C1 C2].
+    apply Nat.eqb_eq in C1, C2, C3. apply Nat.ltb_lt in C4. subst. exists r'. split; [now apply assign_evs_In|auto].
+  - now apply nodupn_NoDup.
+  - intros s w dir A. specialize (H5 _ A). simpl in H5. now apply Nat.eqb_eq.
+Qed.
